@@ -10,11 +10,9 @@ For every execution:
   * `C20_only_while_registered`    every callback is backed by a registration of that listener on the message's
                                    subject, and the message was published before every later unregistration;
     `C20_other_subjects`, `C20_nothing_after_unregister`  the two readings the statement names;
-  * `C20_order_partial`            per listener and subject callbacks come in publication order — if no callback
-                                   was entered for a listener removed in the meantime (`stale = 0`);
-    `C20_order_prompt`             in particular when the callback is entered right after the check;
-    `C20_order_counterexample`     without that the statement is false of the code as it is (a chosen callback can
-                                   be overtaken through a second subscriber after leave + join);
+  * `C20_order`                    per listener and subject callbacks come in publication order, also across leaving
+                                   and joining again (`C20_new_subscriber_waits`: a subscriber made for a subject
+                                   takes nothing before the closed one has finished);
   * `C20_conservation`             a message published after a registration completed is, for a listener that
                                    stayed registered and below the slow-consumer threshold, in `incoming`, being
                                    sent, queued, in flight for that listener, or delivered;
@@ -24,7 +22,7 @@ For every execution:
   * `C20_publish_never_blocks`, `C20_register_never_blocks`, `C20_dispatcher_never_blocked`, `C20_progress`
                                    nobody waits for a consumer; quiescence is the only state without an enabled
                                    internal action;
-  * `C20_admits_partial`, `C20_admits_widen`, `C20_admits_recorded`  every recorded history of such an execution
+  * `C20_admits`, `C20_admits_widen`, `C20_admits_recorded`  every recorded history of an execution
                                    satisfies the executable spec `admits` the driver judges the implementation with.
 -/
 import SigModel.Lemmas.Bus
@@ -34,7 +32,7 @@ open SigModel.Generated.Bus
 
 /-- The facts the model is defined over, as the current source has them. -/
 theorem C20_facts :
-    snapshotIteration = true ∧ closeOnLast = true ∧ sendNonBlocking = true ∧ 0 < chanCap ∧
+    snapshotIteration = true ∧ closeOnLast = true ∧ waitsForPrevious = true ∧ sendNonBlocking = true ∧ 0 < chanCap ∧
     publishNeverWaits = true ∧ dispatchPopsFront = true ∧ runUnsubscribesOnClose = true ∧
     subscribeUnderClientLock = true ∧ dispatchProgram = "C?(r)MI(A)UdI(Z)" ∧
     (registerAtomicBackendRoom && registerAtomicRoom && registerAtomicUser && registerAtomicSession) = true ∧
@@ -60,9 +58,9 @@ theorem C20_no_duplicates {st : State} (h : Reach st) (l : Nat) : (st.received l
   simp only [List.mem_filter, decide_eq_true_eq] at hr hr'
   exact hrel ⟨hr.2.trans hr'.2.symm, e⟩
 
-theorem C20_order_partial {st : State} (h : Reach st) (hs : st.stale = 0) (l s : Nat) :
-    (st.receivedOn l s).Pairwise (· < ·) := by
-  have od := h.inv.od hs
+theorem C20_order {st : State} (h : Reach st) (l s : Nat) : (st.receivedOn l s).Pairwise (· < ·) := by
+  have od := h.inv.od
+  unfold OD at od
   unfold State.receivedOn State.received
   have h1 := od.filter (fun r => decide (r.l = l))
   have h2 : ((st.recvs.filter fun r => decide (r.l = l)).map (·.i)).Pairwise
@@ -77,9 +75,6 @@ theorem C20_order_partial {st : State} (h : Reach st) (hs : st.stale = 0) (l s :
   intro i i' hi hi' hrel
   simp only [List.mem_filter, decide_eq_true_eq] at hi hi'
   exact hrel (hi.2.trans hi'.2.symm)
-
-theorem C20_order_prompt {st : State} (h : ReachP st) (l s : Nat) : (st.receivedOn l s).Pairwise (· < ·) :=
-  C20_order_partial h.reach.1 h.reach.2.1 l s
 
 theorem C20_only_while_registered {st : State} (h : Reach st) {r : RecvEv} (hr : r ∈ st.recvs) :
     ∃ p R, st.log[r.i]? = some p ∧ p.t < r.t ∧ R ∈ st.regs ∧ R.l = r.l ∧ R.s = p.s ∧ R.t < r.t ∧
@@ -177,8 +172,38 @@ def Act.internal : Act → Bool
   | .publish _ | .register _ _ | .unregister _ _ => false
   | _ => true
 
+/-- a receiver goroutine that is processing a message can always take its next step -/
+theorem busy_progress {st : State} {k i : Nat} (hk : k < st.nsubs) (hc : (st.sub k).cur = some i) :
+    ∃ a st', a.internal = true ∧ step st a = some st' := by
+  cases hsn : (st.sub k).snapped with
+  | false =>
+    have : ∃ st', step st (.snap k) = some st' := by
+      simp only [step, snap, hk, hc, hsn, Option.isSome_some, and_self, if_true]; exact ⟨_, rfl⟩
+    obtain ⟨st', e⟩ := this
+    exact ⟨_, st', rfl, e⟩
+  | true =>
+    cases hp : (st.sub k).pending with
+    | some l =>
+      have : ∃ st', step st (.call k) = some st' := by
+        simp only [step, call, hk, hp, hc, if_true]; exact ⟨_, rfl⟩
+      obtain ⟨st', e⟩ := this
+      exact ⟨_, st', rfl, e⟩
+    | none =>
+      cases ht : (st.sub k).tovisit with
+      | cons l rest =>
+        have : ∃ st', step st (.pick k l) = some st' := by
+          simp only [step, pick, hk, hsn, hp, ht, List.mem_cons, true_or, and_self, if_true]; exact ⟨_, rfl⟩
+        obtain ⟨st', e⟩ := this
+        exact ⟨_, st', rfl, e⟩
+      | nil =>
+        have : ∃ st', step st (.finish k) = some st' := by
+          simp only [step, finish, hk, hc, hsn, ht, hp, Option.isSome_some, and_self, if_true]; exact ⟨_, rfl⟩
+        obtain ⟨st', e⟩ := this
+        exact ⟨_, st', rfl, e⟩
+
 /-- Quiescence is exactly "no internal action enabled": in every other reachable state some goroutine can
-move (no deadlock between dispatcher, receivers, registration and publication). -/
+move (no deadlock between dispatcher, receivers, registration and publication; a subscriber waiting for the
+closed one of its subject is never waiting in vain: that one can finish). -/
 theorem C20_progress {st : State} (h : Reach st) (hq : ¬ Quiescent st) :
     ∃ a st', a.internal = true ∧ step st a = some st' := by
   have w := h.inv.wf
@@ -201,43 +226,37 @@ theorem C20_progress {st : State} (h : Reach st) (hq : ¬ Quiescent st) :
       intro hc
       exact hn ⟨k, hk, ha, hc⟩
     obtain ⟨k, hk, ha, hne⟩ := this
-    have ok := w.subok k hk
     cases hc : (st.sub k).cur with
+    | some i => exact busy_progress hk hc
     | none =>
       cases hch : (st.sub k).chan with
       | nil => exact absurd ⟨hch, hc⟩ hne
       | cons i rest =>
-        have : ∃ st', step st (.take k) = some st' := by
-          simp only [step, take, hk, ha, hc, hch, and_self, if_true]; exact ⟨_, rfl⟩
-        obtain ⟨st', e⟩ := this
-        exact ⟨_, st', rfl, e⟩
-    | some i =>
-      cases hsn : (st.sub k).snapped with
-      | false =>
-        have : ∃ st', step st (.snap k) = some st' := by
-          simp only [step, snap, hk, hc, hsn, Option.isSome_some, and_self, if_true]; exact ⟨_, rfl⟩
-        obtain ⟨st', e⟩ := this
-        exact ⟨_, st', rfl, e⟩
-      | true =>
-        cases hp : (st.sub k).pending with
-        | some l =>
-          have : ∃ st', step st (.call k) = some st' := by
-            simp only [step, call, hk, hp, hc, if_true]; exact ⟨_, rfl⟩
+        by_cases hed : earlierDone st k = true
+        · have : ∃ st', step st (.take k) = some st' := by
+            simp only [step, take, hk, ha, hc, hch, hed, or_true, and_self, if_true]; exact ⟨_, rfl⟩
           obtain ⟨st', e⟩ := this
           exact ⟨_, st', rfl, e⟩
-        | none =>
-          cases ht : (st.sub k).tovisit with
-          | cons l rest =>
-            have : ∃ st', step st (.pick k l) = some st' := by
-              simp only [step, pick, hk, hsn, hp, ht, List.mem_cons, true_or, and_self, if_true]; exact ⟨_, rfl⟩
+        · -- an earlier subscriber of the subject is still running: it is closed and can move
+          have : ∃ k1, k1 < k ∧ (st.sub k1).subj = (st.sub k).subj ∧ (st.sub k1).attached = true := by
+            apply Classical.byContradiction
+            intro hn
+            apply hed
+            rw [earlierDone_iff]
+            intro k' hk' hs'
+            cases hatt : (st.sub k').attached with
+            | false => rfl
+            | true => exact absurd ⟨k', hk', hs', hatt⟩ hn
+          obtain ⟨k1, h1k, hs1, ha1⟩ := this
+          have hk1 : k1 < st.nsubs := by omega
+          have hcl := (h.inv.ix.born_order k1 k h1k hk hs1).1
+          cases hc1 : (st.sub k1).cur with
+          | some i1 => exact busy_progress hk1 hc1
+          | none =>
+            have : ∃ st', step st (.exit k1) = some st' := by
+              simp only [step, Bus.exit, hk1, ha1, hcl, hc1, and_self, if_true]; exact ⟨_, rfl⟩
             obtain ⟨st', e⟩ := this
             exact ⟨_, st', rfl, e⟩
-          | nil =>
-            have : ∃ st', step st (.finish k) = some st' := by
-              simp only [step, finish, hk, hc, hsn, ht, hp, Option.isSome_some, and_self, if_true]; exact ⟨_, rfl⟩
-            obtain ⟨st', e⟩ := this
-            exact ⟨_, st', rfl, e⟩
-
 
 /-! ### the recorded history of an execution -/
 
@@ -353,8 +372,9 @@ theorem okC_histOf {st : State} (h : Reach st) : okC (histOf st) = true := by
   · exact absurd ⟨e1, e2⟩ g
   · exact absurd ⟨e1.symm, e2.symm⟩ g
 
-theorem okD_histOf {st : State} (h : Reach st) (hs : st.stale = 0) : okD (histOf st) = true := by
-  have od := h.inv.od hs
+theorem okD_histOf {st : State} (h : Reach st) : okD (histOf st) = true := by
+  have od : OD st := h.inv.od
+  unfold OD at od
   have ts := h.inv.tm.recvs_sorted
   have both := od.and ts
   simp only [okD, List.all_eq_true, decide_eq_true_eq]
@@ -401,12 +421,12 @@ theorem okE_histOf {st : State} (h : Reach st) (hq : Quiescent st) (hd : st.drop
     simp only [decide_eq_true_eq] at this
     exact this ⟨e1, e2⟩
 
-/-- Every execution without a stale callback is admitted by the spec; `complete` may be claimed for
-quiescent states in which no message was dropped at a full channel. -/
-theorem C20_admits_partial {st : State} (h : Reach st) (hs : st.stale = 0) (complete : Bool)
+/-- Every execution is admitted by the spec; `complete` may be claimed for quiescent states in which no
+message was dropped at a full channel. -/
+theorem C20_admits {st : State} (h : Reach st) (complete : Bool)
     (hc : complete = true → Quiescent st ∧ st.dropped = false) : admits (histOf st) complete = true := by
   simp only [admits, admitsSafe, Bool.and_eq_true, Bool.or_eq_true, Bool.not_eq_true']
-  refine ⟨⟨⟨⟨⟨okP_histOf h, okA_histOf h⟩, okB_histOf h⟩, okC_histOf h⟩, okD_histOf h hs⟩, ?_⟩
+  refine ⟨⟨⟨⟨⟨okP_histOf h, okA_histOf h⟩, okB_histOf h⟩, okC_histOf h⟩, okD_histOf h⟩, ?_⟩
   cases complete with
   | false => left; rfl
   | true => right; exact okE_histOf h (hc rfl).1 (hc rfl).2
@@ -524,10 +544,10 @@ theorem C20_admits_widen (w : Widening) (h : Hist) (c : Bool) (ok : admits h c =
 
 
 /-- What the harness records: the exact history seen through arbitrary intervals around the calls. -/
-theorem C20_admits_recorded {st : State} (h : Reach st) (hs : st.stale = 0) (complete : Bool)
+theorem C20_admits_recorded {st : State} (h : Reach st) (complete : Bool)
     (hc : complete = true → Quiescent st ∧ st.dropped = false) (w : Widening) :
     admits (w.apply (histOf st)) complete = true :=
-  C20_admits_widen w _ _ (C20_admits_partial h hs complete hc)
+  C20_admits_widen w _ _ (C20_admits h complete hc)
 
 /-! ### witnesses and non-vacuity -/
 
@@ -553,14 +573,13 @@ theorem demo_reach : Reach demoState := reach_of_acts demoActs (by decide)
 example : demoState.received 1 = [0, 2, 1] ∧ demoState.received 2 = [0, 2] ∧ demoState.stale = 0 ∧
     demoState.dropped = false ∧ demoState.receivedOn 1 0 = [0, 2] ∧ demoState.receivedOn 1 5 = [1] := by decide
 example : (demoState.received 1).Nodup := C20_no_duplicates demo_reach 1
-example : (demoState.receivedOn 1 0).Pairwise (· < ·) := C20_order_partial demo_reach (by decide) 1 0
+example : (demoState.receivedOn 1 0).Pairwise (· < ·) := C20_order demo_reach 1 0
 example : demoState.receivedOn 2 5 = [] := C20_other_subjects demo_reach 2 5 (by decide)
 example : Quiescent demoState := by decide
 example : ∃ R, R ∈ demoState.regs ∧ Stays demoState R ∧ R.l = 2 ∧
     ∃ (i : Nat) (p : PubEv), demoState.log[i]? = some p ∧ p.s = R.s ∧ R.t < p.t :=
   ⟨{ l := 2, s := 0, t := 1 }, by decide, by decide, rfl, 0, { s := 0, t := 3 }, by decide⟩
-example : admits (histOf demoState) true = true :=
-  C20_admits_partial demo_reach (by decide) true (fun _ => by decide)
+example : admits (histOf demoState) true = true := C20_admits demo_reach true (fun _ => by decide)
 example : (histOf demoState).recvs.length = 5 ∧ (histOf demoState).pubs.length = 3 := by decide
 
 /-- unregister, then a later publication: `C20_nothing_after_unregister` applies to a non-trivial state -/
@@ -575,49 +594,25 @@ example : leaveState.received 1 = [0] ∧ leaveState.received 2 = [0, 1] ∧
       ∃ p : PubEv, leaveState.log[1]? = some p ∧ p.s = U.s ∧ U.t < p.t) :=
   ⟨by decide, by decide, { l := 1, s := 0, t := 5 }, by decide, by decide, by decide, { s := 0, t := 6 }, by decide⟩
 
-/-- prompt executions exist and deliver -/
-def promptActs : List Act :=
-  [.register 1 0, .publish 0, .publish 0, .dispatch, .send, .dispatch, .send, .take 0, .snap 0, .pick 0 1, .finish 0,
-   .take 0, .snap 0, .pick 0 1, .finish 0]
-def runActsP (st : State) : List Act → Option State
-  | [] => some st
-  | a :: as => match stepP st a with
-    | some st' => runActsP st' as
-    | none => none
-theorem ReachP.runActsP {st st' : State} (h : ReachP st) : ∀ {as : List Act}, runActsP st as = some st' → ReachP st' := by
-  intro as
-  induction as generalizing st with
-  | nil => intro e; simp [Bus.runActsP] at e; exact e ▸ h
-  | cons a as ih =>
-    intro e
-    simp only [Bus.runActsP] at e
-    cases hs : stepP st a with
-    | none => simp [hs] at e
-    | some s1 => rw [hs] at e; exact ih (ReachP.next a h hs) e
-def promptState : State := (runActsP State.init promptActs).getD State.init
-theorem prompt_reach : ReachP promptState := by
-  have h : (runActsP State.init promptActs).isSome = true := by decide
-  unfold promptState
-  cases e : runActsP State.init promptActs with
-  | none => rw [e] at h; cases h
-  | some st => exact ReachP.init.runActsP e
-example : promptState.receivedOn 1 0 = [0, 1] := by decide
-example : (promptState.receivedOn 1 0).Pairwise (· < ·) := C20_order_prompt prompt_reach 1 0
-
-/-- The callback for message 0 is chosen; the listener leaves and joins again (a new subscriber is made); message 1
-reaches it through the new subscriber before the old callback is entered. -/
-def overtakeActs : List Act :=
+/-- The callback for message 0 is chosen and not yet entered; the listener leaves (the subscriber is closed) and
+joins again (a new subscriber is made); message 1 is published and sent to both channels. -/
+def rejoinActs : List Act :=
   [.register 1 0, .publish 0, .dispatch, .send, .take 0, .snap 0, .pick 0 1,
-   .unregister 1 0, .register 1 0, .publish 0, .dispatch, .send, .send, .take 1, .snap 1, .pick 1 1, .call 1, .call 0]
+   .unregister 1 0, .register 1 0, .publish 0, .dispatch, .send, .send]
 
-def overtakeState : State := (runActs State.init overtakeActs).getD State.init
+def rejoinState : State := (runActs State.init rejoinActs).getD State.init
+theorem rejoin_reach : Reach rejoinState := reach_of_acts rejoinActs (by decide)
 
-/-- The full order statement (and with it `admits` for every execution) is false of the code as it is. -/
-theorem C20_order_counterexample :
-    Reach overtakeState ∧ overtakeState.received 1 = [1, 0] ∧ overtakeState.stale = 1 ∧
-    ¬ (overtakeState.receivedOn 1 0).Pairwise (· < ·) ∧
-    judge (histOf overtakeState) false = "violated:out-of-order-delivery" :=
-  ⟨reach_of_acts overtakeActs (by decide), by decide, by decide, by decide, by decide⟩
+/-- The new subscriber cannot overtake the pending callback of the closed one: it takes nothing before the
+closed one has finished (in the code before commit a646ba6 `take 1` was enabled here and the listener received
+message 1 before message 0). -/
+theorem C20_new_subscriber_waits :
+    (rejoinState.sub 0).pending = some 1 ∧ (rejoinState.sub 1).chan = [1] ∧
+    (step rejoinState (.take 1)).isNone = true ∧
+    ((runActs rejoinState [.call 0, .finish 0, .take 0, .snap 0, .finish 0, .exit 0, .take 1, .snap 1, .pick 1 1,
+      .call 1, .finish 1]).map fun st => (st.received 1, st.stale)) = some ([0, 1], 1) := by decide
+
+example : (rejoinState.receivedOn 1 0).Pairwise (· < ·) := C20_order rejoin_reach 1 0
 
 /-- A message published after the registration completed and before the unregistration began, still in
 `incoming` when the listener unregisters, is never delivered to it. -/
